@@ -3,13 +3,21 @@
 Proof obligations: theorems of coq/Properties/Properties_C11.v (tables + values) and the tie
 obligations `table:*` (hand-written typing/emission model = tables regenerated from the
 tree's compiler, completely enumerated).
-Correspondence / search: one-expression probe programs, operands in variables so that the
-reducer does not fold them, run on the VM built from /repo's current tree; the result (bit
-pattern for float/double) is compared with
+Correspondence / search: one-expression probe programs run on the code built from /repo's
+current tree.  The property is about the language's numbers whatever the syntactic form of an
+operand, so every (operator, type pair, value pair) case is evaluated in ALL OPERAND FORMS:
+  var-var   both operands in variables (nothing is reduced: the VM's handlers)
+  lit-lit   both operands literal (front/constred.c reduces the whole expression)
+  lit-var / var-lit   one literal operand (the inserted conversion of the literal is reduced)
+  enum-init (int x int and unary int only) the expression as an enumerator initialiser,
+            `enum E { k = <expr> }` read back (front/enumred.c, the third evaluator)
+and likewise assignments (`x = <literal>` / `x = <variable>`) and concatenations.  The result
+(bit pattern for float/double) of every form is compared with
   * the extracted Coq model (Arith.RtEval.rt_eval / rt_assign, Arith.Fmt)   -> correspondence
   * an independent Python reference of the C semantics the property names   -> property oracle
 A case where the real code differs from the reference is a VIOLATION (key
-`value:<op>:<types>`, `ass-conv:<l><-<r>`, `concat:<kind>`, `div:int_min/-1:runtime`, ...);
+`value:<op>:<types>` for var-var, `value:<op>:<types>:<form>` for the other forms,
+`ass-conv:<l><-<r>[:lit]`, `concat:<kind>[:lit]`, `div:int_min/-1:runtime`, ...);
 a case where only the model differs is a broken correspondence.
 Excluded as C undefined behaviour (counted in the evidence): float->integer conversions whose
 value does not fit, shift counts outside 0 <= k < width.
@@ -24,6 +32,7 @@ from lib import common
 from gen import arithlib as al
 from gen import arithcases as ac
 from gen import aritheval as ae
+from gen import arithforms as af
 from gen import gen_convtables
 
 NUMK = ["i", "l", "f", "d"]
@@ -39,6 +48,22 @@ def trap_key(tree):
     return "%s:%s_min/-1:runtime" % (op, wide)
 
 
+# boundary magnitudes every (operator, type pair) cell sees on either side, whatever the seed:
+# >= 2^31, >= 2^32, >= 2^53 (long -> double rounds), long -> float tie points (2^60+2^36+1:
+# must round once, directly), negative left operands of shifts, INT_MIN / LONG_MIN, denormals
+BOUNDARY = {
+    "b": [0, 1],
+    "i": [al.INT_MIN, -16, al.INT_MAX, -1, 16777217, -2147483647, 2 ** 30, 0],
+    "l": [5000000000, -3000000000, 2 ** 32, 2 ** 31, 2 ** 53 + 1, 2 ** 60 + 2 ** 36 + 1, al.LONG_MIN,
+          -(2 ** 60 + 2 ** 36 + 1), -16, al.LONG_MAX, 2 ** 32 + 1, -(2 ** 31) - 1],
+    "f": [0x00000001, 0x807FFFFF, 0x4F000000, 0x5F000000, 0x4B800001, 0x7F7FFFFF, 0x80000000, 0x3F800001],
+    "d": [0x0000000000000001, 0x800FFFFFFFFFFFFF, 0x41E0000000000000, 0x43E0000000000000,
+          0x4340000000000001, 0x7FEFFFFFFFFFFFFF, 0x8000000000000000, 0x41F0000000000000,
+          0x3FF0000010000000, 0x47EFFFFFF0000000],
+}
+LITFORMS = (("lit", "lit"), ("lit", "var"), ("var", "lit"))
+
+
 def build_expr_cases(ctx, per_cell, deep):
     rng = ctx.rng
     cases = collections.OrderedDict()
@@ -49,18 +74,26 @@ def build_expr_cases(ctx, per_cell, deep):
         cases[cid] = tree
         return cid
 
-    # operator x admitted numeric type pair x values (corner-biased + random)
+    # operator x admitted numeric type pair x values (boundary list + corner-biased + random)
     for op in ac.BINSYM:
         for (ka, kb) in ac.admitted_pairs(op):
             if "e" in (ka, kb):
                 continue        # enum operands belong to C10's quantifier
             n = per_cell if (ka in NUMK and kb in NUMK) else max(4, per_cell // 4)
+            ba, bb = BOUNDARY[ka], BOUNDARY[kb]
+            off = rng.randrange(len(ba) * len(bb))
             for k in range(n):
                 if op in ("shl", "shr") and rng.random() < 0.8:
                     vb = rng.choice([0, 1, 2, 7, 15, 30, 31] + ([32, 33, 62, 63] if "l" in (ka, kb) else []))
                 else:
                     vb = ac.pick_value(rng, kb)
                 va = ac.pick_value(rng, ka)
+                if 2 <= k < 2 + len(ba):
+                    va = ba[k - 2]
+                elif 2 + len(ba) <= k < 2 + len(ba) + len(bb) and op not in ("shl", "shr"):
+                    vb = bb[k - 2 - len(ba)]
+                elif k == n - 1:
+                    va, vb = ba[off % len(ba)], (bb[off // len(ba)] if op not in ("shl", "shr") else vb)
                 if op in ("div", "mod") and k == 0:
                     va, vb = ({"i": al.INT_MIN, "l": al.LONG_MIN}.get(ka, va),
                               -1 if kb in "il" else vb)
@@ -71,7 +104,8 @@ def build_expr_cases(ctx, per_cell, deep):
     for op, kinds in (("neg", NUMK), ("bnot", ["i", "l"]), ("not", ["b"])):
         for ka in kinds:
             for k in range(per_cell):
-                add("u", ("U", op, ac.atom(ac.value_tree(ka, ac.pick_value(rng, ka)))))
+                va = BOUNDARY[ka][k] if k < len(BOUNDARY[ka]) else ac.pick_value(rng, ka)
+                add("u", ("U", op, ac.atom(ac.value_tree(ka, va))))
                 dist["unary:%s" % op] += 1
     # whole expressions evaluate modulo 2^n / in the promoted type: random trees
     for k in range(deep):
@@ -89,13 +123,17 @@ def build_expr_cases(ctx, per_cell, deep):
     return cases, dist
 
 
+def int_only_tree(tree):
+    return all(l[1] == "i" for l in ac.leaves(tree))
+
+
 def build_assign_cases(ctx, per_cell):
     rng = ctx.rng
     cases = collections.OrderedDict()
     for kl in NUMK:
         for kr in NUMK:
             for k in range(per_cell):
-                v = ac.pick_value(rng, kr)
+                v = BOUNDARY[kr][k] if k < len(BOUNDARY[kr]) else ac.pick_value(rng, kr)
                 cases["a%05d" % len(cases)] = (kl, 0, ac.value_tree(kr, v), kr, v)
     return cases
 
@@ -253,6 +291,82 @@ def run(ctx):
                       {"program": r["src_var"], "tree": ac.sx(st), "expected": r["ref"], "observed": r["var"],
                        "model": r["model"]["rt"], "found_in": ac.sx(tree)})
 
+    # ---- the same cases in the other operand forms ---------------------------------------
+    # (lit-lit / lit-var / var-lit: constred.c reduces the literal operands and their inserted
+    #  conversions; enum-init: enumred.c evaluates the expression) against the same expectation
+    formdist = collections.Counter()
+    for cid, tree in cases.items():
+        if not cid.startswith("d") and res[cid].get("model") and res[cid]["model"]["ty"] not in (None, "enum"):
+            formdist[(ae.root_key(tree), "var-var")] += 1
+    fprogs, fmeta = [], collections.OrderedDict()
+    for cid, tree in cases.items():
+        if cid.startswith("d"):
+            continue
+        r = res[cid]
+        m = r["model"]
+        if not m or m["ty"] in (None, "enum") or m["ub"] or r["ref"][0] == "undef":
+            continue
+        t0 = tree
+        while t0[0] == "P":
+            t0 = t0[1]
+        key = ae.root_key(tree)
+        expected = r["ref"]
+        if expected == ("trap",):
+            wide = "long" if "long" in key else "int"
+            expected = ("val", wide, 0 if t0[1] == "mod" else (al.LONG_MIN if wide == "long" else al.INT_MIN))
+        forms = list(LITFORMS) if t0[0] == "B" else [("lit",)]
+        for fm in forms:
+            fid = "%s.%s" % (cid, af.form_name(fm))
+            src = af.form_program(tree, fm, m["ty"])
+            fprogs.append((fid, "", src))
+            fmeta[fid] = (cid, af.form_name(fm), src, expected)
+            formdist[(key, af.form_name(fm))] += 1
+        if int_only_tree(tree):
+            isb = m["ty"] == "bool"
+            fid = "%s.enum-init" % cid
+            src = ac.program_enum(ac.as_int_tree(tree, isb))
+            fprogs.append((fid, "", src))
+            exp_e = expected
+            if isb and expected[0] == "val":
+                exp_e = ("val", "int", 10 if expected[2] else 11)
+            fmeta[fid] = (cid, "enum-init", src, exp_e)
+            formdist[(key, "enum-init")] += 1
+    frr = al.run_batch(Tp["nevrun"], fprogs, work, "c11-forms")
+    fsample = [pr for i, pr in enumerate(fprogs) if i % (16 if quick else 8) == 0]
+    frr_asan = al.run_batch(Ta["nevrun"], fsample, work, "c11a-forms")
+    for fid, (cid, fname, src, expected) in fmeta.items():
+        tree = cases[cid]
+        key = ae.root_key(tree)
+        real = ae.canon_real(al.classify_run(frr.get(fid)))
+        counts["evaluations"] += 1
+        counts["form:" + fname] += 1
+        case = {"program": src, "tree": ac.sx(tree), "operand_form": fname,
+                "variable_form_program": res[cid]["src_var"], "variable_form_result": res[cid]["var"]}
+        if fid in frr_asan:
+            ra = ae.canon_real(al.classify_run(frr_asan.get(fid)))
+            if ra != real:
+                violation("sanitizer-differs:%s:%s" % (key, fname), "ASan/UBSan build behaves differently from the plain build",
+                          dict(case, plain=real, asan=ra))
+        if real == ("compile_error", "division by zero") and expected == ("fault", "division_by_zero"):
+            counts["constant-division-by-zero-rejected"] += 1
+            nontrivial.add((key, fname, "rejected"))
+            continue
+        if fname == "enum-init" and real == ("compile_error", "other") and key.split(":")[0] in ("eq", "neq"):
+            counts["enum-init-not-reducible(== != on ints)"] += 1
+            continue
+        nontrivial.add((key, fname, real))
+        if real != expected:
+            if real[0] == "crash" and res[cid]["ref"] == ("trap",):
+                violation(trap_key(tree).replace(":runtime", ":" + fname),
+                          "%s with operands MIN, -1 (operand form %s) kills the compiler (%s) instead of wrapping"
+                          % (key, fname, real[1]), dict(case, expected=expected, observed=real))
+            else:
+                violation("value:%s:%s" % (key, fname),
+                          "%s in operand form %s: result differs from the C semantics" % (key, fname),
+                          dict(case, expected=expected, observed=real, model=res[cid]["model"]["rt"]))
+        else:
+            counts["form-agrees"] += 1
+
     # ---- assignments --------------------------------------------------------------------
     acases = collections.OrderedDict()
     for i, obj in enumerate(corpus):
@@ -264,7 +378,8 @@ def run(ctx):
         lines.append("A %s %s (L %s 0) %s" % (cid, ac.KIND_TY[kl], kl, ac.sx(tree)))
         progs.append((cid, "", ac.program_assign(kl, old, tree)))
     mo = ae.run_model(lines)
-    rr = al.run_batch(Tp["nevrun"], progs, work, "c11-ass")
+    lprogs = [(cid + ".lit", "", ac.program_assign_lit(kl, old, tree)) for cid, (kl, old, tree, kr, v) in acases.items()]
+    rr = al.run_batch(Tp["nevrun"], progs + lprogs, work, "c11-ass")
     rr_asan = al.run_batch(Ta["nevrun"], [p for i, p in enumerate(progs) if i % 4 == 0], work, "c11a-ass")
     for (cid, (kl, old, tree, kr, v)), (_, _, src) in zip(acases.items(), progs):
         counts["evaluations"] += 1
@@ -290,6 +405,17 @@ def run(ctx):
         if real != expected:
             violation(key, "assignment %s does not store the right side converted to the left type" % key,
                       dict(case, expected=expected, observed=real, model=model))
+        # the same assignment with a literal right side (the conversion is reduced by constred.c)
+        counts["evaluations"] += 1
+        formdist[(key, "var")] += 1
+        formdist[(key, "lit")] += 1
+        lsrc = ac.program_assign_lit(kl, old, tree)
+        lreal = ae.canon_real(al.classify_run(rr.get(cid + ".lit")))
+        nontrivial.add((key, "lit", lreal))
+        if lreal != expected:
+            violation(key + ":lit", "assignment %s of a LITERAL right side does not store it converted to the left type" % key,
+                      {"program": lsrc, "expected": expected, "observed": lreal,
+                       "variable_form_program": src, "variable_form_result": real})
         if model != real:
             ctx.correspondence_broken("vm-vs-rt_assign", dict(case, model=model, real=real))
         else:
@@ -302,7 +428,12 @@ def run(ctx):
         lines.append("S %s (L %s %s)" % (cid, kind, ac.hexnum(v)))
         progs.append((cid, "", ac.program_concat(ac.value_tree(kind, v), left)))
     mo = ae.run_model(lines)
-    rr = al.run_batch(Tp["nevrun"], progs, work, "c11-cat")
+
+    def concat_lit(cid):
+        kind, v, left = scases[cid]
+        txt = ac.expr_text(ac.value_tree(kind, v), lambda i, leaf: ac.lit_text(leaf, {}))
+        return "func main() -> int { prints(%s); 0 }" % (("%s + \"|\"" % txt) if left else ("\"|\" + %s" % txt))
+    rr = al.run_batch(Tp["nevrun"], progs + [(cid + ".lit", "", concat_lit(cid)) for cid in scases], work, "c11-cat")
     for (cid, (kind, v, left)), (_, _, src) in zip(scases.items(), progs):
         counts["evaluations"] += 1
         mm = ae.TEXT_RE.match(mo.get(cid, ""))
@@ -322,6 +453,15 @@ def run(ctx):
         if real != exp_ref:
             violation("concat:" + ac.KIND_TY[kind], "text of a %s concatenated to a string differs from printf" % ac.KIND_TY[kind],
                       {"program": src, "expected": exp_ref, "observed": real, "model": exp_model})
+        counts["evaluations"] += 1
+        formdist[("concat:" + ac.KIND_TY[kind] + (":number-left" if left else ":string-left"), "var")] += 1
+        formdist[("concat:" + ac.KIND_TY[kind] + (":number-left" if left else ":string-left"), "lit")] += 1
+        lrec = rr.get(cid + ".lit")
+        lreal = al.program_text(lrec).replace("-nan", "nan") if lrec else None
+        if lreal != exp_ref:
+            violation("concat:%s:lit" % ac.KIND_TY[kind],
+                      "text of a LITERAL %s concatenated to a string differs from printf" % ac.KIND_TY[kind],
+                      {"program": concat_lit(cid), "expected": exp_ref, "observed": lreal, "variable_form_result": real})
         if real != exp_model:
             ctx.correspondence_broken("vm-vs-Fmt", {"program": src, "model": exp_model, "real": real})
         else:
@@ -345,11 +485,25 @@ def run(ctx):
     ctx.count(evaluations=counts["evaluations"], nontrivial=len(nontrivial))
     ctx.coverage["rule"] = (
         "probe programs `func main() -> T { var v0 = L0; ...; <one expression> }` over every operator x every "
-        "admitted ordered pair of {int,long,float,double} (+ bool ==/!=) x values (corner set: 0, +-1, min, max, "
+        "admitted ordered pair of {int,long,float,double} (+ bool ==/!=) x every operand form (var-var, lit-lit, "
+        "lit-var, var-lit, and for int operands the expression as an enumerator initialiser) x values (a fixed "
+        "boundary list per type on either side: >=2^31, >=2^32, >=2^53, long->float tie points, negative shift "
+        "operands, MIN, denormals; corner set: 0, +-1, min, max, "
         "min/-1, 2^31, 2^53+-1, +-0.0, denormals, inf, NaN, int->float halfway and double-rounding cases; + seeded "
         "random), assignments over all 16 numeric pairs, number+string concatenations, and random +,-,*,&,^ trees; "
         "non-trivial = distinct (operator, operand types, outcome) triples")
     ctx.notes["distribution"] = dict(dist)
+    table = collections.OrderedDict()
+    for (key, fname), n in sorted(formdist.items()):
+        op, _, pair = key.partition(":")
+        table.setdefault(op, collections.OrderedDict()).setdefault(pair, []).append("%s:%d" % (fname, n))
+    ctx.coverage["operator_x_typepair_x_operandform"] = {
+        op: {pair: " ".join(v) for pair, v in pairs.items()} for op, pairs in table.items()}
+    ctx.coverage["operand_form_cells"] = {
+        "distinct (operator, type pair, operand form) cells": len(formdist),
+        "cases per form": {f: sum(n for (k, ff), n in formdist.items() if ff == f)
+                           for f in sorted({ff for (k, ff) in formdist})},
+        "smallest cell": min(formdist.values()) if formdist else 0}
     ctx.notes["counts"] = dict(counts)
     ctx.notes["violation_hits"] = viol_seen
     ctx.notes["excluded"] = ("C undefined behaviour: out-of-range float->int conversions, shift counts >= width "
